@@ -348,7 +348,12 @@ def main(tier, seed):
     if gj is None:
         gj = json.load(open(os.path.join(common.BUILD, "gen", "globals.json")))
     one_case.gj = gj
-    exe = k6_exe()
+    try:
+        exe = k6_exe()
+    except Exception as ex:
+        res.violation({"property": PID, "seed": seed, "broken_obligations": pres["failed"], "correspondence": terrs + ["k6_threads build: %s" % str(ex)[-1500:]],
+                       "note": "the C17 harness cannot be built against this tree; nothing was run"}, note="no-failing-input-found", name="unproved")
+        return res.finish()
     rng = Rng(seed)
     workdir = os.path.join(common.BUILD, "c17")
     os.makedirs(workdir, exist_ok=True)
@@ -467,6 +472,12 @@ def main(tier, seed):
                            "note": "the C17 model (Mgr/Globals.v) / the table of writable globals no longer check against this tree; no interleaving or "
                                    "schedule in which one manager influences another was found"},
                           note="no-failing-input-found", name="unproved")
+    elif broken or corr:
+        res.violation({"property": PID, "seed": seed, "broken_obligations": pres["failed"], "correspondence": corr[:20],
+                       "proof_log_tail": pres["log"][-2500:] if broken else "",
+                       "note": "a proof obligation / translator of C17 is broken on this tree; whether one of the violations reported in the same "
+                               "run is its cause must be judged from the log"},
+                      note="broken-obligation (see the other violations of this run)", name="unproved")
     res.assumptions = ["API calls are atomic with respect to the modelled globals (documented usage: one thread per manager at a time)",
                        "the CPU answers CPUID with the same values on every core"]
     return res.finish()
